@@ -9,8 +9,9 @@
      analog  = self.read(nsel, csel=analog_indices, sync=False)
    integer selector: the sample axis is dropped; `_raw[i, [w]]` is the 1-D
    vector of the sample's word(s) and split_sync still returns one row per
-   word, but the analog part is 1-D too and np.concatenate((1,16), (k,))
-   raises ValueError (faithful; known finding F-C10-f). *)
+   word; the analog part is 1-D when the percentile floor is computed (one
+   floor pooled over the k analog channels of that sample — faithful; known
+   finding F-C10-g) and is made a (1, k) row afterwards. *)
 From Coq Require Import ZArith List Bool Lia.
 From IBL.lib Require Import PyInt.
 From IBL.C01 Require Model.
@@ -29,10 +30,17 @@ Definition read_sync_sel (typ ntr c0 c1 c2 c3 : Z) (s : IBL.C01.Model.sel) (one 
       if dropped then
         match analog_indices typ c0 c1 c2 c3 with
         | [] => read_sync typ ntr c0 c1 c2 c3 0 n one thr gain use_floor rows
-        | _ => match read_sync_digital typ ntr c0 c1 c2 c3 0 n rows with
-               | None => None
-               | Some _ => None                        (* concatenate (., 16) with a 1-D analog vector *)
-               end
+        | idx =>
+            (* the analog vector of the one sample is 1-D when the floor is taken: np.percentile(.., axis=0)
+               pools the k channels of that sample into ONE floor; np.atleast_2d then makes it a row
+               (repair ccd27fe; before it the concatenation raised) *)
+            match read_sync_digital typ ntr c0 c1 c2 c3 0 n rows,
+                  read_sync_analog typ ntr c0 c1 c2 c3 0 n gain rows with
+            | Some dg, Some (Some [v]) =>
+                let floors := if use_floor then Some (repeat (pct10x v) (length v)) else None in
+                hconcat dg [digitise_row (10 * one) (10 * thr) 10 floors v]
+            | _, _ => None
+            end
         end
       else read_sync typ ntr c0 c1 c2 c3 0 n one thr gain use_floor rows
   end.
@@ -88,7 +96,6 @@ Lemma read_sync_sel_layout typ ntr c0 c1 c2 c3 s one thr gain use_floor raw d ro
   (forall i, In i (analog_indices typ c0 c1 c2 c3) -> 0 <= i < ntr) ->
   IBL.C01.Model.np_index1 raw s = IBL.C01.Model.Ok (d, rows) ->
   (d = false \/ analog_indices typ c0 c1 c2 c3 = []) ->
-  (use_floor = false \/ rows <> [] \/ analog_indices typ c0 c1 c2 c3 = []) ->
   let floors := floors_of use_floor (analog_volts typ c0 c1 c2 c3 gain rows)
                           (length (analog_indices typ c0 c1 c2 c3)) in
   read_sync_sel typ ntr c0 c1 c2 c3 s one thr gain use_floor raw =
@@ -97,13 +104,11 @@ Lemma read_sync_sel_layout typ ntr c0 c1 c2 c3 s one thr gain use_floor raw d ro
                            (map (fun v => v * gain) (analog_cols typ c0 c1 c2 c3 r)))
             rows).
 Proof.
-  intros Hns Hntr Hrect Hidx Hsel Hd Hfl floors.
+  intros Hns Hntr Hrect Hidx Hsel Hd floors.
   assert (Hrect' : forall r, In r rows -> Z.of_nat (length r) = ntr)
     by (intros r Hr; apply Hrect; eapply np_index1_in; eauto).
-  assert (Hfl' : use_floor = false \/ slice_rows 0 (Z.of_nat (length rows)) rows <> [] \/
-                 analog_indices typ c0 c1 c2 c3 = []) by (rewrite slice_rows_all; exact Hfl).
-  pose proof (read_sync_layout typ ntr c0 c1 c2 c3 0 (Z.of_nat (length rows)) one thr gain use_floor rows
-                Hns Hntr Hrect' Hidx Hfl') as HL. cbv zeta in HL. rewrite slice_rows_all in HL.
+  pose proof (read_sync_layout_total typ ntr c0 c1 c2 c3 0 (Z.of_nat (length rows)) one thr gain use_floor rows
+                Hns Hntr Hrect' Hidx) as HL. cbv zeta in HL. rewrite slice_rows_all in HL.
   unfold read_sync_sel. rewrite Hsel.
   destruct d.
   - destruct Hd as [Hd|Hd]; [discriminate|]. unfold floors. revert HL. rewrite Hd. intros HL. exact HL.
@@ -130,7 +135,7 @@ Proof.
   pose proof (read_sync_layout typ ntr c0 c1 c2 c3 0 (Z.of_nat (length raw)) one thr gain use_floor raw
                 Hns Hntr Hrect Hidx Hfl0) as HL. cbv zeta in HL. rewrite slice_rows_all in HL.
   pose proof (read_sync_sel_layout typ ntr c0 c1 c2 c3 s one thr gain use_floor raw d rows
-                Hns Hntr Hrect Hidx Hsel (or_intror Hno) (or_intror (or_intror Hno))) as HS. cbv zeta in HS.
+                Hns Hntr Hrect Hidx Hsel (or_intror Hno)) as HS. cbv zeta in HS.
   assert (Hdig : forall fl r, digitise_row (10 * one) (10 * thr) 10 fl
                    (map (fun v => v * gain) (analog_cols typ c0 c1 c2 c3 r)) = []).
   { intros fl r. unfold analog_cols. rewrite Hno. reflexivity. }
